@@ -161,10 +161,16 @@ def run(ctx):
     pres = {"container": list, "order": None, "as_string": False}
     r3 = scen.replay_all(ctx, scns[: (16 if quick else 200)], cse_settings=(False,), force_ekf=True, presentation={"container": "list-reversed"})
     c3 = scen.record_results(ctx, r3, key_prefix="py:list-reversed:")
-    ncpp = 6 if quick else 60
-    rc1 = cppcheck.replay_cpp(ctx, scns[:ncpp], cse_settings=(True,), kind="ekf")
+    ncpp = 10 if quick else 80
+
+    def lookalikes(s_):
+        # names where one is a prefix of another (x / x2 / x_1, a / ab / ab1): the spellings most likely to be confused or mis-sorted
+        ns = list(s_["def"]["state"]) + list(s_["def"]["control"]) + list(s_["def"]["calib"])
+        return sum(1 for a in ns for b in ns if a != b and b.startswith(a))
+    order = sorted(range(len(scns)), key=lambda i: -(lookalikes(scns[i]) + lookalikes(twins[i])))[:ncpp]
+    rc1 = cppcheck.replay_cpp(ctx, [scns[i] for i in order], cse_settings=(True,), kind="ekf")
     k1 = cppcheck.record(ctx, rc1, key_prefix="cpp:original:")
-    rc2 = cppcheck.replay_cpp(ctx, twins[:ncpp], cse_settings=(True,), kind="ekf")
+    rc2 = cppcheck.replay_cpp(ctx, [twins[i] for i in order], cse_settings=(True,), kind="ekf")
     k2 = cppcheck.record(ctx, rc2, key_prefix="cpp:renamed-twin:")
     cov = {"states": rb.distinct + stats.get("states", 0), "transitions": rb.states + stats.get("transitions", 0),
            "traces_validated_against_impl": len(scns) + len(twins) + ncons,
